@@ -479,7 +479,12 @@ impl Stdfs {
             let src = entry?;
             let uid = opts.uid.map(nix::unistd::Uid::from_raw);
             let gid = opts.gid.map(nix::unistd::Gid::from_raw);
-            nix::unistd::chown(src.path(), uid, gid)?;
+            if opts.follow {
+                nix::unistd::chown(src.path(), uid, gid)?;
+            } else {
+                // Link exclusion i.e. change the link itself not what it points to
+                nix::unistd::fchownat(None, src.path(), uid, gid, nix::unistd::FchownatFlags::NoFollowSymlink)?;
+            }
         }
         Ok(())
     }
